@@ -405,6 +405,9 @@ class StreamReader:
         if self._exception is not None:
             raise self._exception
 
+        # Buffered data is taken without waiting: enforce the timeout here too.
+        self._timer.assert_timeout()
+
         chunk = b""
         chunk_size = 0
         not_enough = True
@@ -528,6 +531,7 @@ class StreamReader:
                 )
 
             if self._buffer:
+                self._timer.assert_timeout()
                 chunk = self._read_nowait_chunk(-1)
                 if chunk and self._on_chunk_received is not None:
                     await self._fire_chunk_received(chunk)
